@@ -189,6 +189,13 @@ func (w *c14World) sendAndWait(c *vk.Ctx, r *rand.Rand, cl *udpClient, t *udpTar
 	return st, w.rig.Nat.ByPort(port), true
 }
 
+// c14ScenSeq hands the scenarios out in turn, so that every batch covers all of them.
+var c14ScenSeq atomic.Int64
+
+func pickSeq(seq *atomic.Int64, list []string) string {
+	return list[int(seq.Add(1)-1)%len(list)]
+}
+
 func c14Expiry(c *vk.Ctx, r *rand.Rand) bool {
 	natTimeout := time.Duration(400+r.Intn(800)) * time.Millisecond
 	w := newC14World(c, r, natTimeout)
@@ -210,7 +217,7 @@ func c14Expiry(c *vk.Ctx, r *rand.Rand) bool {
 			if cr.Intn(2) == 0 {
 				dns53 = w.dns53b
 			}
-			scen := pick(cr, []string{"non-dns-burst-then-idle", "single-non-dns", "dns-then-non-dns", "fast-close", "no-fast-close/reply-from-other-port-first", "no-fast-close/two-queries", "no-fast-close/non-dns-first", "dns-reply-races-second-datagram", "first-write-fails", "reply-write-to-client-fails", "chatty-target-silent-client", "datagram-in-the-reaping-window"})
+			scen := pickSeq(&c14ScenSeq, []string{"non-dns-burst-then-idle", "single-non-dns", "dns-then-non-dns", "fast-close", "no-fast-close/reply-from-other-port-first", "no-fast-close/two-queries", "no-fast-close/non-dns-first", "dns-reply-races-second-datagram", "first-write-fails", "reply-write-to-client-fails", "chatty-target-silent-client", "datagram-in-the-reaping-window"})
 			c.Progress("C14 expiry client=%d scenario=%s timeout=%s", ci, scen, natTimeout)
 			var sends []c14Send
 			var sock *NatSock
